@@ -198,6 +198,7 @@ func checkC11(p *Prog, res *Result, tier string) {
 	res.rule("C11-R12", "the conditions of a batch see the operations staged earlier in the same batch: the in-process engine reads the store only on the miss edge of the lookup in the batch's staged operations (the transactional engines read through their transaction)", 3)
 	res.rule("C11-R13", "the in-process engine, which keeps the slices it is given and hands out the slices it keeps, never writes a stored value in place", 2)
 	res.rule("C11-R14", "the in-process engine's Commit applies every staged operation: each iteration of its loop over the staged operations passes a Remove or a Set on the skip list", 1)
+	res.rule("C11-R15", "the in-process engine's ttl timer removes a key only after comparing what it holds with the value the ttl was set for (what the engines with native ttl do when a key is overwritten)", 1)
 	res.rule("C11-R9", "deleting a key that is not there is not an error in any adapter: Del never reports the ErrKeyNotFound sentinel (the compaction deletes a record it has already deleted, and treats any error as a failed delete)", 3)
 	res.rule("C11-R10", "an adapter that advertises native TTL hands the ttl of every write form (Put, PutIfNotExist, CAS) to the engine (or records it with the staged operation)", 6)
 	res.rule("C11-R8", "the in-process engine's iterator yields snapshot copies: live skip-list elements are dereferenced only under the store lock (C19-R3)", 2)
@@ -319,6 +320,7 @@ func checkC11(p *Prog, res *Result, tier string) {
 	checkStagedOpsShadowStore(p, r, res, "C11-R12")
 	checkStoredValuesImmutable(p, res, "C11-R13")
 	checkCommitAppliesEveryOp(p, r, res, "C11-R14")
+	checkExpiryIsCompareAndDelete(p, r, res, "C11-R15")
 	checkAdaptersReportCancellation(p, res, "C11-R11")
 	checkAdapterErrorPreservation(p, r, res, "C11-R11")
 	checkNativeTTLHonoured(p, r, res, "C11-R10")
@@ -1672,7 +1674,29 @@ func checkNativeTTLHonoured(p *Prog, r *Roles, res *Result, rule string) {
 				continue
 			}
 			used, how := ttlUsed(p, f, ttl, 0)
-			if used {
+			// .. and nothing else decides when the written record expires: no expiry read from the engine (the old
+			// record's) or computed otherwise is stored into the entry
+			var foreign ssa.Instruction
+			for _, g := range withAnon(f) {
+				for _, b := range g.Blocks {
+					for _, ins := range b.Instrs {
+						st, ok := ins.(*ssa.Store)
+						if !ok {
+							continue
+						}
+						fa, ok := st.Addr.(*ssa.FieldAddr)
+						if !ok || fieldOf(fa).Name() != "ExpiresAt" || fieldOf(fa).Pkg() == nil || strings.HasPrefix(fieldOf(fa).Pkg().Path(), modPath) {
+							continue
+						}
+						if !derivesFrom(p, st.Val, func(x ssa.Value) bool { return p.resolveDeep(x) == ssa.Value(ttl) }) {
+							foreign = st
+						}
+					}
+				}
+			}
+			if used && foreign != nil {
+				res.bad(rule, construct, p.pos(foreign.Pos()), "the expiry of the written entry is set from something other than the ttl operand (e.g. inherited from the record it replaces): a write with ttl 0 is meant to make the record permanent - an Event's index record that is rewritten keeps the expiry of its creation and vanishes while its newest version stays")
+			} else if used {
 				res.ok(rule, construct, p.pos(f.Pos()), how)
 			} else {
 				res.bad(rule, construct, p.pos(f.Pos()), "this engine advertises native TTL (the expiry worker leaves its events alone), but this write form drops the ttl: a record written through it never expires - an event re-created over a deleted one keeps its index record for ever")
